@@ -699,6 +699,7 @@ func (s *Server) netServe() error {
 				pr.rd = rdbuf
 				pr.wr = client
 				msgs, err := pr.ReadMessages()
+				readErr := err
 				for i, msg := range msgs {
 					// Just closing connection if we have deprecated HTTP or WS connection,
 					// And --http-transport = false
@@ -759,6 +760,7 @@ func (s *Server) netServe() error {
 								// the commands that followed in the same packet
 								// are the first thing the new owner reads
 								client.pr.pending = msgs[i+1:]
+								client.pr.pendingErr = readErr
 								client.closer = nil
 								wg.Done()
 								detached = true
@@ -1625,6 +1627,8 @@ type PipelineReader struct {
 	// but not handled yet, because the connection was handed over (to a
 	// subscription, a live fence, ...) by an earlier message of that packet.
 	pending []*Message
+	// pendingErr is the read error that came with them, if any
+	pendingErr error
 }
 
 const kindHTTP redcon.Kind = 9999
@@ -1842,9 +1846,11 @@ func readNextCommand(packet []byte, argsIn [][]byte, msg *Message, wr io.Writer)
 // ReadMessages ...
 func (rd *PipelineReader) ReadMessages() ([]*Message, error) {
 	var msgs []*Message
-	if len(rd.pending) > 0 {
+	if len(rd.pending) > 0 || rd.pendingErr != nil {
+		var err error
 		msgs, rd.pending = rd.pending, nil
-		return msgs, nil
+		err, rd.pendingErr = rd.pendingErr, nil
+		return msgs, err
 	}
 moreData:
 	n, err := rd.rd.Read(rd.packet[:])
